@@ -143,8 +143,9 @@ theorem C10_false_uptodate_counterexample :
     changedOk (runI falseUptodateHist) 0 (kwargsOf (runI falseUptodateHist) 0) = false := by decide
 
 /-- a dependency dropped from file_dep and taken up again: `save_success` keeps the per-file state of the older
-    execution, so the file is compared with what an execution *before the last one* saw and is left out of
-    `changed` although the last successful execution did not see it at all. -/
+    execution.  On the tree before the fix commit faa294a (`Status.depIsPinned`: the loop without the
+    `dep not in previous_set` test) the file was compared with what an execution *before the last one* saw and was
+    left out of `changed` although the last successful execution did not see it at all; the present tree lists it. -/
 def readdedDepHist : List IOp :=
   [.base (.edit 0 4 1), .base (.edit 1 4 2), .base (.redefine 0 ⟨[0, 1], [], []⟩), .select 0, .complete 0 true [] none,
    .base (.redefine 0 ⟨[1], [], []⟩), .select 0, .complete 0 true [] none,
@@ -153,7 +154,9 @@ def readdedDepHist : List IOp :=
 theorem C10_readded_dep_counterexample :
     IFaithful readdedDepHist = true ∧ executes (runI readdedDepHist) 0 false = true ∧
     needsAt (runI readdedDepHist) 0 0 = true ∧ falseItemAt (runI readdedDepHist) 0 = false ∧
-    (kwargsOf (runI readdedDepHist) 0).changed = [] := by decide
+    ((runI readdedDepHist).defs 0).deps.filter
+      (depIsPinned .modified (runI readdedDepHist).checker ((runI readdedDepHist).rcd 0) (runI readdedDepHist).fs) = [] ∧
+    (kwargsOf (runI readdedDepHist) 0).changed = [0] := by decide
 
 theorem C10_changed_full_is_false : ¬ C10_changed_full := by
   intro hfull
